@@ -25,7 +25,41 @@ theorem C07_guard (c : HdrCfg) (info : Extracted) (h : Text)
   have hg := (createNewHeader_ok hok).2
   unfold guardOk at hg
   simp only [Bool.and_eq_true] at hg
-  exact ⟨sameSet_iff.mp hg.1, sameSet_iff.mp hg.2⟩
+  exact ⟨sameSet_iff.mp hg.2.1.1, sameSet_iff.mp hg.2.1.2⟩
+
+/-- **The guard, contributors.**  A header that `_create_new_header` returns and that shows any
+    contributor at all (the template renders contributors) reads back exactly the requested
+    contributors: none is cut short by a comment terminator, none is lost, none is invented.
+    (A template that leaves the contributors out is accepted: C09 speaks of "any template that
+    renders them".) -/
+theorem C07_guard_contributors (c : HdrCfg) (info : Extracted) (h : Text)
+    (hok : createNewHeader c info = .ok h) (hshown : (extractRaw h).con ≠ []) :
+    ∀ x, x ∈ info.con ↔ x ∈ (extractRaw h).con := by
+  have hg := (createNewHeader_ok hok).2
+  unfold guardOk at hg
+  simp only [Bool.and_eq_true, Bool.or_eq_true, List.isEmpty_iff] at hg
+  rcases hg.2.2 with h0 | h1
+  · exact (hshown h0).elim
+  · exact sameSet_iff.mp h1
+
+/-- A header that shows contributors other than the requested ones — one of them read back
+    truncated, say — is never returned. -/
+theorem C07_guard_refuses_contributors (c : HdrCfg) (info : Extracted) (result : Text)
+    (hr : renderedHeader c info = .ok result) (hshown : (extractRaw result).con ≠ [])
+    (hbad : ∃ x, ¬ (x ∈ info.con ↔ x ∈ (extractRaw result).con)) :
+    createNewHeader c info = .error .missingInfo := by
+  rw [createNewHeader_eq, hr]
+  have : guardOk c info result = false := by
+    cases hg : guardOk c info result with
+    | false => rfl
+    | true =>
+      unfold guardOk at hg
+      simp only [Bool.and_eq_true, Bool.or_eq_true, List.isEmpty_iff] at hg
+      obtain ⟨x, hx⟩ := hbad
+      rcases hg.2.2 with h0 | h1
+      · exact (hshown h0).elim
+      · exact (hx (sameSet_iff.mp h1 x)).elim
+  simp [this]
 
 /-- A header is never returned when either kind of information cannot be read back. -/
 theorem C07_guard_refuses (c : HdrCfg) (info : Extracted) (result : Text)
@@ -41,8 +75,8 @@ theorem C07_guard_refuses (c : HdrCfg) (info : Extracted) (result : Text)
       unfold guardOk at hg
       simp only [Bool.and_eq_true] at hg
       rcases hbad with ⟨x, hx⟩ | ⟨x, hx⟩
-      · exact (hx (sameSet_iff.mp hg.1 x)).elim
-      · exact (hx (sameSet_iff.mp hg.2 x)).elim
+      · exact (hx (sameSet_iff.mp hg.2.1.1 x)).elim
+      · exact (hx (sameSet_iff.mp hg.2.1.2 x)).elim
   simp [this]
 
 /-- `create_header` on an existing header: the new header reads back everything requested
@@ -77,6 +111,28 @@ theorem C07_guard_union (c : HdrCfg) (info : Extracted) (header h : Text)
       simp only [List.mem_map, mem_dedup, List.mem_append] at this
       obtain ⟨z, ⟨x, hx, rfl⟩, hz⟩ := this
       exact ⟨x, hx, by rw [← hz, hnorm]⟩
+  · simp only [hp, Bool.not_false, if_true] at hok
+    cases hok
+
+/-- `create_header` on an existing header, contributors: a new header that shows contributors at
+    all reads back exactly the requested contributors **and** those of the old header — with or
+    without `--merge-copyrights` (which does not touch contributors). -/
+theorem C07_guard_union_contributors (c : HdrCfg) (info : Extracted) (header h : Text)
+    (hne : header ≠ []) (hok : createHeader c info header = .ok h) (hshown : (extractRaw h).con ≠ []) :
+    ∀ x, x ∈ (extractRaw header).con ∨ x ∈ info.con ↔ x ∈ (extractRaw h).con := by
+  unfold createHeader at hok
+  have he : header.isEmpty = false := by cases header <;> simp_all
+  simp only [he, Bool.false_eq_true, if_false] at hok
+  by_cases hp : (extractRaw header).lic.all c.parses = true
+  · simp only [hp, Bool.not_true, Bool.false_eq_true, if_false] at hok
+    have hok' : createNewHeader c
+        { lic := dedup (((extractRaw header).lic ++ info.lic).map c.normLic),
+          con := unionTexts (extractRaw header).con info.con,
+          cpr := if c.merge = true then mergeLines (unionTexts info.cpr (extractRaw header).cpr)
+                 else unionTexts info.cpr (extractRaw header).cpr } = .ok h := hok
+    intro x
+    rw [← C07_guard_contributors c _ h hok' hshown x]
+    exact mem_unionTexts.symm
   · simp only [hp, Bool.not_false, if_true] at hok
     cases hok
 
@@ -297,7 +353,8 @@ theorem C07_default_header (c : HdrCfg) (info : Extracted) (m : LineMode)
     (hr : c.render = defaultRender) (hc : c.commented = false)
     (hm : lineMode c.style c.forceMulti = some m)
     (hstyle : styleReadable c.style m = true)
-    (hreq : wfRequest Generated.endRe c.style m info = true) :
+    (hreq : wfRequest Generated.endRe c.style m info = true)
+    (hparse : ∀ x ∈ info.lic, c.parses x = true) :
     createNewHeader c info = .ok (join ['\n'] (C07A.headerLines c.style m
       (C07A.bodyLines (sortTexts info.cpr) (sortTexts info.con) (sortTexts info.lic)))) ∧
     extractRaw (join ['\n'] (C07A.headerLines c.style m
@@ -316,10 +373,15 @@ theorem C07_default_header (c : HdrCfg) (info : Extracted) (m : LineMode)
     have hext' : extractRaw (join ['\n'] (C07A.headerLines c.style m
         (C07A.bodyLines (sortTexts info.cpr) (sortTexts info.con) (sortTexts info.lic)))) = _ := hext
     rw [hext']
-    simp only [Bool.and_eq_true]
-    refine ⟨sameSet_iff.mpr fun x => ?_, sameSet_iff.mpr fun x => ?_⟩
+    simp only [Bool.and_eq_true, Bool.or_eq_true]
+    refine ⟨?_, ⟨sameSet_iff.mpr fun x => ?_, sameSet_iff.mpr fun x => ?_⟩, .inr (sameSet_iff.mpr fun x => ?_)⟩
+    · rw [List.all_eq_true]
+      intro x hx
+      rw [mem_dedup, C07A.mem_sortTexts] at hx
+      exact hparse x hx
     · rw [mem_dedup, C07A.mem_sortTexts]
     · simp only [List.mem_map, mem_dedup, C07A.mem_sortTexts]
+    · rw [mem_dedup, C07A.mem_sortTexts]
   simp [hg]
 
 /-- **The default template is achievable — general form.**  For *any* style `c.style` and line
@@ -332,10 +394,11 @@ theorem C07_default_achievable_style (c : HdrCfg) (info : Extracted) (m : LineMo
     (hr : c.render = defaultRender) (hc : c.commented = false)
     (hm : lineMode c.style c.forceMulti = some m)
     (hstyle : styleReadable c.style m = true)
-    (hreq : wfRequest Generated.endRe c.style m info = true) :
+    (hreq : wfRequest Generated.endRe c.style m info = true)
+    (hparse : ∀ x ∈ info.lic, c.parses x = true) :
     ∃ h, createNewHeader c info = .ok h ∧
       extractRaw h = ⟨dedup (sortTexts info.lic), dedup (sortTexts info.cpr), dedup (sortTexts info.con)⟩ :=
-  ⟨_, (C07_default_header c info m hr hc hm hstyle hreq).1, (C07_default_header c info m hr hc hm hstyle hreq).2⟩
+  ⟨_, (C07_default_header c info m hr hc hm hstyle hreq hparse).1, (C07_default_header c info m hr hc hm hstyle hreq hparse).2⟩
 
 /-- **C07_default_achievable.**  For the bundled default template, every style of the generated
     style table and every line mode the style supports (single-line, multi-line incl. forced; the
@@ -353,12 +416,14 @@ theorem C07_default_achievable_style (c : HdrCfg) (info : Extracted) (m : LineMo
     marker); its line contains neither the other tag nor a copyright notice; no rendered line
     contains a line boundary, `REUSE-IgnoreStart` or — in multi-line mode — the comment terminator
     (for which `create_comment` raises).  Each of these is necessary: dropping it gives a request
-    the code refuses or reads back differently. -/
+    the code refuses or reads back differently.  `hparse`: the requested expressions parse (on the
+    command line they are parsed expressions; the guard re-reads the header with the parser). -/
 theorem C07_default_achievable (c : HdrCfg) (info : Extracted) (m : LineMode)
     (hs : c.style ∈ Generated.styles)
     (hr : c.render = defaultRender) (hc : c.commented = false)
     (hm : lineMode c.style c.forceMulti = some m)
-    (hreq : wfRequest Generated.endRe c.style m info = true) :
+    (hreq : wfRequest Generated.endRe c.style m info = true)
+    (hparse : ∀ x ∈ info.lic, c.parses x = true) :
     ∃ h, createNewHeader c info = .ok h ∧
       (∀ x, x ∈ (extractRaw h).cpr ↔ x ∈ info.cpr) ∧
       (∀ x, x ∈ (extractRaw h).lic ↔ x ∈ info.lic) ∧
@@ -369,7 +434,7 @@ theorem C07_default_achievable (c : HdrCfg) (info : Extracted) (m : LineMode)
   rw [List.all_eq_true] at h1
   have h2 := h1 c.forceMulti (by cases c.forceMulti <;> simp)
   rw [hm] at h2
-  obtain ⟨h, hok, hext⟩ := C07_default_achievable_style c info m hr hc hm h2 hreq
+  obtain ⟨h, hok, hext⟩ := C07_default_achievable_style c info m hr hc hm h2 hreq hparse
   refine ⟨h, hok, ?_, ?_, ?_⟩ <;> intro x <;> rw [hext] <;> simp only [mem_dedup, C07A.mem_sortTexts]
 
 /-- Every copyright line `make_copyright_line` builds from one of the ten generated prefixes, a
@@ -409,6 +474,7 @@ theorem C07_file_default (c : HdrCfg) (replace skip : Bool) (info : Extracted) (
     (hs : c.style ∈ Generated.styles) (hr : c.render = defaultRender) (hc : c.commented = false)
     (hm : lineMode c.style c.forceMulti = some m) (hmerge : c.merge = false)
     (hreq : wfRequest Generated.endRe c.style m info = true)
+    (hparse : ∀ x ∈ info.lic, c.parses x = true)
     (hle : detectLineEnding text = ['\n'])
     (hold : oldHeader c replace (Py.replace text ['\n'] ['\n']) = [])
     (h : annotateText c replace skip info text = .written t)
@@ -416,7 +482,7 @@ theorem C07_file_default (c : HdrCfg) (replace skip : Bool) (info : Extracted) (
     (∀ x ∈ info.cpr, x ∈ (extractRaw t).cpr) ∧ (∀ x ∈ info.lic, x ∈ (extractRaw t).lic) ∧
     (∀ x ∈ info.con, x ∈ (extractRaw t).con) := by
   have hstyle := C07_style_of_table c.style hs c.forceMulti m hm
-  obtain ⟨hnew, hext⟩ := C07_default_header c info m hr hc hm hstyle hreq
+  obtain ⟨hnew, hext⟩ := C07_default_header c info m hr hc hm hstyle hreq hparse
   obtain ⟨p, hp, ht⟩ := annotateText_parts h
   rw [hle] at hp ht
   have hcreated := headerParts_created hp
@@ -922,6 +988,7 @@ theorem e2e_example_exit : (annotateE2E e2eWorld e2eOpts e2eFs).2 = 0 := by
   rw [hold, hreq] at he
   obtain ⟨h, hok, -⟩ := C07_default_achievable (cfgFor e2eWorld e2eOpts e2eFs (C07A.styleNamed "PythonCommentStyle"))
     exampleRequest .single (C07A.styleNamed_mem _ python_style_exists) rfl rfl (by decide +kernel) C07_example_request
+    (by decide +kernel)
   have : createHeader (cfgFor e2eWorld e2eOpts e2eFs (C07A.styleNamed "PythonCommentStyle")) exampleRequest [] = .ok h := by
     unfold createHeader
     simpa [cfgFor, hdrCfg, e2eOpts] using hok
